@@ -33,6 +33,7 @@ class Ctx:
         self.exhaustive = None
         self.minimums = []        # (counter name, minimum)
         self.notes = []
+        shutil.rmtree(os.path.join(REPLAYS, prop), ignore_errors=True)
 
     # -- observation -------------------------------------------------------
     def count(self, name, n=1):
